@@ -137,6 +137,23 @@ def run(ctx, repo, tier):
                 ctx.violate("DOM", "C10.translate.unconditional", "the translation to the row's position is executed only under a condition: for "
                             "rows / molecules where it is false the frame keeps the molecule at the origin", where, src(call)[:120],
                             witness=f"translate() is nested in `if {src(st.test)[:80]}` with no translation on the other branch")
+        if isinstance(call, ast.Call) and call.func.attr == "rotate" and isinstance(st, ast.If):
+            in_body = any(call is n for b in st.body for n in ast.walk(b))
+            other = st.orelse if in_body else st.body
+            twin = any(isinstance(n, ast.Call) and isinstance(n.func, ast.Attribute) and n.func.attr == "rotate" for b in other for n in ast.walk(b))
+            if not twin:
+                test_ = call_.expand(st.test)
+                toler = [n for n in ast.walk(test_) if (isinstance(n, ast.Call) and src(n.func).split(".")[-1] in ("isclose", "allclose")) or
+                         (isinstance(n, ast.Compare) and any(isinstance(o_, (ast.Lt, ast.LtE, ast.Gt, ast.GtE)) for o_ in n.ops))]
+                ctx.instance("DOM")
+                if toler:
+                    ctx.violate("DOM", "C10.rotate.unconditional", "the rotation by the row's quaternion is skipped under a TOLERANCE test: a small "
+                                "but non-zero rotation (w = cos(angle/2) within the tolerance of 1) is dropped, frame k is not rotated by row k's "
+                                "quaternion", where, src(call)[:120],
+                                witness=f"rotate() is nested in `if {src(st.test)[:100]}`; np.isclose default rtol=1e-5 <=> angles up to ~0.5 degrees")
+                else:
+                    ctx.inconclusive("DOM", "C10.rotate.unconditional", "the rotation is executed only under a condition that is not recognised", where,
+                                     src(call)[:120], witness=src(st.test)[:120])
     if not mutator_sites:
         ctx.inconclusive("RESET", "C10.reset", "no rotate/translate call found in the frame loop", where)
     last_mut = max([k for k, *_ in mutator_sites], default=-1)
@@ -433,6 +450,21 @@ def run(ctx, repo, tier):
             ctx.ok("ORD", "C10.merge_after", "the frame is assembled after rotation and translation", where)
     else:
         ctx.inconclusive("ORD", "C10.atom_order", "Merge of the two molecules not found in the loop", where)
+    # every OTHER Merge of the two molecules in the class (e.g. a topology built once for the whole trajectory) must keep the same order:
+    # coordinates of a frame are [molecule 1, molecule 2], names / types / masses must be listed the same way
+    for mname_, mfi_ in sorted(pci.methods.items()):
+        for n in ast.walk(mfi_.node):
+            if isinstance(n, ast.Call) and (repo.dotted_of(mfi_.module, n.func) or "").endswith("Merge") and n not in merges:
+                a = [Canon(Canon.single_defs(mfi_.node.body)).text(x) for x in n.args]
+                ctx.instance("ORD")
+                if a == ["self.moving_molecule.atoms", "self.static_molecule.atoms"]:
+                    ctx.violate("ORD", "C10.atom_order.topology", "a topology is assembled with molecule 2 BEFORE molecule 1 while the frame "
+                                "coordinates are [molecule 1, molecule 2]: atom names, types and masses are attached to the wrong coordinates "
+                                "whenever the two molecules differ", mfi_.where, src(n), witness=str(a))
+                elif a == ["self.static_molecule.atoms", "self.moving_molecule.atoms"]:
+                    ctx.ok("ORD", "C10.atom_order.topology", "a further Merge keeps the order molecule 1, molecule 2", mfi_.where, src(n))
+                else:
+                    ctx.inconclusive("ORD", "C10.atom_order.topology", "arguments of a further Merge not recognised", mfi_.where, witness=str(a))
     # copies of the molecules are taken at construction
     init = pci.methods.get("__init__")
     if init is not None:
@@ -451,6 +483,40 @@ def run(ctx, repo, tier):
                             "frames depend on, and change, state outside the pseudotrajectory", init.where, f"{attr} = {src(v)}", witness=src(v))
             else:
                 ctx.inconclusive("OWN", f"C10.copies.{attr[5:]}", "origin of the molecule attribute not recognised", init.where, witness=src(v)[:100])
+        # the grid whose rows drive the frames is the array that was passed in
+        gv = cp.get("self.full_grid")
+        ctx.instance("OWN")
+        COPYING = ("np.array", "np.asarray", "np.copy", "numpy.array", "numpy.asarray", "np.ascontiguousarray")
+        plain = gv is not None and ((isinstance(gv, ast.Name) and gv.id in iparams) or
+                                    (isinstance(gv, ast.Call) and src(gv.func) in COPYING and gv.args and isinstance(gv.args[0], ast.Name) and gv.args[0].id in iparams) or
+                                    (isinstance(gv, ast.Call) and isinstance(gv.func, ast.Attribute) and gv.func.attr == "copy" and
+                                     isinstance(gv.func.value, ast.Name) and gv.func.value.id in iparams))
+        if gv is None:
+            ctx.inconclusive("OWN", "C10.grid.stored", "self.full_grid is not assigned in __init__", init.where)
+        elif plain:
+            ctx.ok("OWN", "C10.grid.stored", "the rows that drive the frames are the rows of the array passed to the constructor (stored as given / "
+                   "as a plain copy)", init.where, f"self.full_grid = {src(gv)}")
+        else:
+            # a preprocessing helper: look for whole-ROW sign flips / rescalings (rows are (x, y, z, q...): negating a row negates the position)
+            helper = None
+            if isinstance(gv, ast.Call) and isinstance(gv.func, ast.Attribute) and isinstance(gv.func.value, ast.Name) and gv.func.value.id in ("self", pci.name):
+                helper = pci.find_method(gv.func.attr)
+            wrong = None
+            if helper is not None:
+                ctx.analysed(helper)
+                for n in ast.walk(helper.node):
+                    if isinstance(n, ast.AugAssign) and isinstance(n.op, (ast.Mult, ast.Div)) and isinstance(n.target, ast.Subscript):
+                        sl = n.target.slice
+                        row_only = not isinstance(sl, ast.Tuple)
+                        if row_only:
+                            wrong = n
+            if wrong is not None:
+                ctx.violate("OWN", "C10.grid.stored", "the constructor rewrites whole ROWS of the grid (all seven columns) before they drive the "
+                            "frames: the position part (x, y, z) of the selected rows is changed together with the quaternion, so frame k is not "
+                            "placed at row k's position", helper.where, norm_stmt(wrong), witness=f"self.full_grid = {src(gv)[:100]}")
+            else:
+                ctx.inconclusive("OWN", "C10.grid.stored", "the grid stored by the constructor is a processed version of the argument", init.where,
+                                 witness=src(gv)[:120])
     # ---------------- collection order in get_pt_as_universe
     gp = pci.methods.get("get_pt_as_universe")
     if gp is None:
